@@ -223,7 +223,18 @@ func runC09(c *Check) {
 		c.Req(nst == 1, en, "-", "paused-flag:site", "the enter helper sets the paused flag once", fmt.Sprintf("%d", nst))
 		for _, d := range p.Calls(E, "(*mysql.Node).SemiSyncDisable") {
 			rt := p.T(d.Common().Args[0])
-			c.Req(p.IsCall(rt, "(*mysql.Cluster).Get") && rt.Args[1].Op == "param" && rt.Args[1].Name == "2", en, p.InstrPos(d), "semisync-disable:on-master", "semi-sync is disabled on the recorded master", "")
+			okm := p.IsCall(rt, "(*mysql.Cluster).Get") && rt.Args[1].Op == "param" && rt.Args[1].Name == "2"
+			if !okm {
+				// the helper is handed the master's node instead of its name: at its only call site the argument is the
+				// registry handle of the current master
+				if prm, isP := d.Common().Args[0].(*ssa.Parameter); isP {
+					if arg, _ := p.uniqueCallArg(prm); arg != nil {
+						at := p.T(arg)
+						okm = p.IsCall(at, "(*mysql.Cluster).Get") && len(at.Args) == 2 && ResultOf(at.Args[1], 0) != nil && p.IsCall(ResultOf(at.Args[1], 0), "(*app.App).getCurrentMaster")
+					}
+				}
+			}
+			c.Req(okm, en, p.InstrPos(d), "semisync-disable:on-master", "semi-sync is disabled on the recorded master", "")
 		}
 	})
 
